@@ -14,8 +14,8 @@ def pSvEntry : P Entry := do
   pure ⟨i, t, k, d, c⟩
 
 def pSnap : P Snap := do
-  let i ← nat; let t ← nat; let ci ← nat; let c ← pCfgN; let d ← many nat
-  pure ⟨i, t, ci, c, d⟩
+  let i ← nat; let t ← nat; let ci ← nat; let c ← pCfgN; let d ← many nat; let ok ← pBool
+  pure ⟨i, t, ci, c, d, ok⟩
 
 def pDurable : P Durable := do
   let ct ← nat; let vt ← nat; let pr ← pBool; let cand ← nat
@@ -44,6 +44,7 @@ def pEvent : P Event := do
     pure (.install ⟨l, lid, tm, li, lt, ci, c, d, ok⟩ f cr)
   else if t = "T" then pure .timeoutNow
   else if t = "R" then pure .restart
+  else if t = "RD" then pure .damagedRestart
   else if t = "S" then do
     let r ← nat; let l ← nat; let lid ← nat
     pure (.setRole (match r with | 0 => .follower | 1 => .candidate | _ => .leader) l lid)
